@@ -18,7 +18,8 @@ REQUIRED = [
     tri_centers_strictMono fbank_centers_strictMono gabor_centers_strictMono gammatone_centers_strictMono
     tri_center_mem_support fbank_center_mem_support gabor_center_mem_support gammatone_center_mem_support
     tri_peak fbank_peak loop_range bins_generic bins_doc tri_is_triangle fbank_is_sqrt_mel_triangle tri_vertices_valid
-    gabor_response_bins gabor_peak gabor_3dB gabor_erb gabor_l2
+    gabor_response_bins gabor_peak gabor_3dB gabor_erb gabor_l2 gabor_bank_filters gabor_neighbours_cross
+    gammatone_bank_filters gammatone_neighbours_cross
     gammatone_H_nsq gammatone_peak gammatone_3dB gammatone_l2 gammatone_h_nsq gammatone_l2_integral
     gammatone_erb_const gammatone_erb_partial gammatone_erb_order1""".split()
 ]
@@ -603,6 +604,11 @@ def corr_ctor(ctx, cfg, bank, raised, out):
             ctx.mismatch(small(cfg), "ok", raised, "constructor outcome: model vs implementation")
         else:
             ctx.count("degenerate_ctor_outcome")
+        return
+    if not in_scope(cfg):
+        # accepted but outside the property (high_hz = 0, low above the default top, sub-mHz ranges, octave from 0 Hz):
+        # NaN / ill-conditioned layouts; only the constructor outcome is compared
+        ctx.count("out_of_scope_layout_not_compared")
         return
     parts = split_bar(out[3:])
     rate = float(cfg["rate"])
